@@ -231,3 +231,135 @@ fn text_eq_iri<const N: usize, const M: usize>() {
 pub fn c14_text_eq_iriref_n5() {
     text_eq_iri::<5, 5>()
 }
+
+/// Every hand-written comparison of a component with plain text is plain text
+/// comparison (never a percent-decoded or normalising one).
+fn text_eq_uri_components<const N: usize, const M: usize>() {
+    let t = Text::<N>::any();
+    let b = t.bytes();
+    let o = Text::<M>::any();
+    let s = o.bytes();
+    assume(tables::t_utf8_valid(s));
+    let st = as_str(s);
+    let want = bytes_eq(b, s);
+    if let Ok(x) = uri::Fragment::new(b) {
+        assert!((*x == st) == want, "uri::Fragment == &str is not text equality");
+    }
+    if let Ok(x) = uri::Query::new(b) {
+        assert!((*x == st) == want, "uri::Query == &str is not text equality");
+    }
+    if let Ok(x) = uri::UserInfo::new(b) {
+        assert!((*x == st) == want, "uri::UserInfo == &str is not text equality");
+    }
+    if tables::t_uri_host_valid(b) {
+        let x = unsafe { uri::Host::new_unchecked(b) };
+        assert!((*x == st) == want, "uri::Host == &str is not text equality");
+    }
+    if tables::t_uri_authority_valid(b) {
+        let x = unsafe { uri::Authority::new_unchecked(b) };
+        assert!((*x == st) == want, "uri::Authority == &str is not text equality");
+    }
+    if let Ok(x) = uri::Path::new(b) {
+        assert!((*x == st) == want, "uri::Path == &str is not text equality");
+        assert!((*x == *st) == want, "uri::Path == str is not text equality");
+        assert!((*x == *s) == want, "uri::Path == [u8] is not byte equality");
+        assert!((*x == s) == want, "uri::Path == &[u8] is not byte equality");
+    }
+    cover!(want && b.len() == 3 && b[0] == b'%', "an escape compared with its own text");
+    cover!(!want && b.len() == 3 && b[0] == b'%' && s.len() == 1, "an escape compared with the byte it encodes");
+    cover!(!want && b.len() == 3 && s.len() == 1 && b[0] == s[0] && b[1] == b'/', "a path with a removable dot segment vs its normal form");
+}
+
+// @h prop=C14 tier=quick kind=check timeout=2400 mem=16 bound="component text <= 4 bytes vs any UTF-8 string <= 4 bytes" encodes="hand-written PartialEq<&str> for uri::{Fragment,Query,UserInfo,Host,Authority};PartialEq<str|&str|[u8]|&[u8]> for uri::Path"
+#[cfg_attr(kani, kani::proof)]
+#[cfg_attr(kani, kani::unwind(6))]
+pub fn c14_text_eq_uri_components_n4() {
+    text_eq_uri_components::<4, 4>()
+}
+
+fn text_eq_iri_components<const N: usize, const M: usize>() {
+    let t = Text::<N>::any();
+    let b = t.bytes();
+    assume(tables::t_utf8_valid(b));
+    let o = Text::<M>::any();
+    let s = o.bytes();
+    assume(tables::t_utf8_valid(s));
+    let st = as_str(s);
+    let bs = as_str(b);
+    let want = bytes_eq(b, s);
+    if tables::t_iri_fragment_valid(b) {
+        let x = unsafe { iri::Fragment::new_unchecked(bs) };
+        assert!((*x == st) == want, "iri::Fragment == &str is not text equality");
+    }
+    if tables::t_iri_query_valid(b) {
+        let x = unsafe { iri::Query::new_unchecked(bs) };
+        assert!((*x == st) == want, "iri::Query == &str is not text equality");
+    }
+    if tables::t_iri_userinfo_valid(b) {
+        let x = unsafe { iri::UserInfo::new_unchecked(bs) };
+        assert!((*x == st) == want, "iri::UserInfo == &str is not text equality");
+    }
+    if tables::t_iri_host_valid(b) {
+        let x = unsafe { iri::Host::new_unchecked(bs) };
+        assert!((*x == st) == want, "iri::Host == &str is not text equality");
+    }
+    if tables::t_iri_authority_valid(b) {
+        let x = unsafe { iri::Authority::new_unchecked(bs) };
+        assert!((*x == st) == want, "iri::Authority == &str is not text equality");
+    }
+    if tables::t_iri_path_valid(b) {
+        let x = unsafe { iri::Path::new_unchecked(bs) };
+        assert!((*x == st) == want, "iri::Path == &str is not text equality");
+        assert!((*x == *st) == want, "iri::Path == str is not text equality");
+    }
+    cover!(want && b.len() == 3 && b[0] == b'%', "an escape compared with its own text");
+    cover!(!want && b.len() == 3 && b[0] == b'%' && s.len() == 1, "an escape compared with the byte it encodes");
+}
+
+// @h prop=C14 tier=quick kind=check timeout=2400 mem=16 bound="component text <= 4 bytes (UTF-8) vs any UTF-8 string <= 4 bytes" encodes="hand-written PartialEq<&str> for iri::{Fragment,Query,UserInfo,Host,Authority,Path}"
+#[cfg_attr(kani, kani::proof)]
+#[cfg_attr(kani, kani::unwind(6))]
+pub fn c14_text_eq_iri_components_n4() {
+    text_eq_iri_components::<4, 4>()
+}
+
+/// bytestr_eq!/str_eq! instances of the other whole-value types.
+fn text_eq_wholes<const N: usize, const M: usize>() {
+    let t = Text::<N>::any();
+    let b = t.bytes();
+    let o = Text::<M>::any();
+    let s = o.bytes();
+    assume(tables::t_utf8_valid(s));
+    let st = as_str(s);
+    let want = bytes_eq(b, s);
+    if tables::t_uri_uri_valid(b) {
+        let x = unsafe { uri::Uri::new_unchecked(b) };
+        assert!((*x == st) == want && (*x == *st) == want && (*x == *s) == want && (*x == s) == want, "Uri vs plain text is not text equality");
+        let xb = unsafe { uri::UriBuf::new_unchecked(vec_of(b)) };
+        assert!((xb == st) == want && (xb == *s) == want, "UriBuf vs plain text is not text equality");
+        forget(xb);
+    }
+    if tables::t_uri_uriref_valid(b) {
+        let xb = unsafe { uri::UriRefBuf::new_unchecked(vec_of(b)) };
+        assert!((xb == st) == want && (xb == *s) == want, "UriRefBuf vs plain text is not text equality");
+        forget(xb);
+    }
+    if tables::t_iri_iri_valid(b) {
+        let x = unsafe { iri::Iri::new_unchecked(as_str(b)) };
+        assert!((*x == st) == want && (*x == *st) == want, "Iri vs plain text is not text equality");
+    }
+    if tables::t_iri_iriref_valid(b) {
+        let xb = unsafe { iri::IriRefBuf::new_unchecked(String::from_utf8_unchecked(vec_of(b))) };
+        assert!((xb == st) == want && (xb == *st) == want, "IriRefBuf vs plain text is not text equality");
+        forget(xb);
+    }
+    cover!(want && b.len() >= 3, "equal texts");
+    cover!(!want && b.len() == s.len() && b.len() >= 3, "same length, different text");
+}
+
+// @h prop=C14 tier=thorough kind=check timeout=3000 mem=20 bound="whole-value text <= 5 bytes vs any UTF-8 string <= 5 bytes" encodes="bytestr_eq!(Uri,UriBuf,UriRefBuf);str_eq!(Iri,IriRefBuf)"
+#[cfg_attr(kani, kani::proof)]
+#[cfg_attr(kani, kani::unwind(7))]
+pub fn c14_text_eq_wholes_n5() {
+    text_eq_wholes::<5, 5>()
+}
